@@ -8,9 +8,9 @@
    history the set of resources that have a configuration applied is exactly the set of active resources --
    nothing active is missing, nothing removed lingers); and the FULL STATEMENT itself
    ([C03_applied_configuration_is_current]) for every history that obeys the API-server rule K3 (a spec change
-   moves the generation; a UID is not reused), with the cert-manager challenge conversion switched off.  The
-   remaining corner (cert_manager = true) is decided on every run by evaluating Arb.Cases.shadow_run on the
-   implementation's own batches. *)
+   moves the generation; a UID is not reused) -- with the cert-manager conversion on or off ([cm_hist]).  The tie of
+   the model to the code is decided on every run by evaluating Arb.Cases.shadow_run on the implementation's own
+   batches. *)
 From Coq Require Import List ZArith String Bool.
 From NIC Require Import Base.SMap Arb.Types Arb.Model Arb.Spec Arb.InvProofs Arb.ListenerProofs Arb.ClassProofs Arb.Cases Arb.ChangeProofs Arb.ShadowProofs Arb.ShadowAttrs.
 Import ListNotations.
@@ -94,8 +94,10 @@ Proof. split; [repeat constructor|vm_compute; reflexivity]. Qed.
    for the state reached -- and nothing under any other key.  [es] is arbitrary, so the same holds after every
    prefix.  Hypotheses: [ev_role] as above; [k3_hist]: among the objects the history ever stores, equal
    namespace/name, UID and generation (and, for an Ingress, annotations) mean equal objects -- what the API
-   server guarantees and what IsEqual() relies on by design; [cert_manager c = false]: the conversion of ACME
-   challenge Ingresses into routes is not part of this proof (it is part of the run-time evaluation). *)
+   server guarantees and what IsEqual() relies on by design; [cm_hist]: the cert-manager conversion is off, or
+   stored routes have UIDs and challenge Ingresses converted into routes with the same namespace, name and
+   generation are converted into the same route (a converted route carries nothing else; before repair F94 it did
+   not even carry the generation and the statement was false). *)
 Theorem C03_applied_configuration_is_current :
   forall c es, cm_hist c es -> Forall ev_role es -> k3_hist es ->
   forall k, lookup k (shadow_run c init [] es) = option_map attrs (lookup k (get_resources (run c es))).
@@ -115,4 +117,27 @@ Proof.
     destruct Ha as [Ha|[Ha|[Ha|[Ha|[Ha|[]]]]]]; try discriminate Ha; injection Ha as Ea; subst a;
     destruct Hb as [Hb|[Hb|[Hb|[Hb|[Hb|[]]]]]]; try discriminate Hb; injection Hb as Eb; subst b;
     first [reflexivity | vm_compute in Hm; discriminate Hm].
+Qed.
+
+(* Non-vacuity with the cert-manager conversion ON: a solver Ingress is converted into a route of the VirtualServer
+   that owns its host, then edited in place (generation 1 -> 2, new token path); the hypotheses hold and the shadow
+   ends with the VirtualServer carrying the NEW route (the F94 scenario). *)
+Definition cV := mkVS (mkMeta "ns" "v" "u1" 100 1 0) "h.example.com" [] None.
+Definition cI g p := mkIng (mkMeta "ns" "cm-acme" "u2" 200 g 0) IRegular ["h.example.com"%string] [p] true.
+Example C03_cert_manager_nonvacuous :
+  let es := [EVS cV true true; EIng (cI 1 "/.well-known/a") true true; EIng (cI 2 "/.well-known/b") true true] in
+  cm_hist (mkCfg true true) es /\ Forall ev_role es /\ k3_hist es /\
+  map (fun kv => match snd kv with RVS vc => map r_subpaths (vc_vsrs vc) | _ => [] end) (shadow_run (mkCfg true true) init [] es)
+  = [[["/.well-known/b"%string]]].
+Proof.
+  split; [|split; [repeat constructor|split; [|vm_compute; reflexivity]]].
+  - right. split; [intros r Hr; cbn [In] in Hr; destruct Hr as [Hr|[Hr|[Hr|[]]]]; discriminate Hr|].
+    intros a b Ha Hb Hm; cbn [In] in Ha, Hb;
+      destruct Ha as [Ha|[Ha|[Ha|[]]]]; try discriminate Ha; injection Ha as Ea; subst a;
+      destruct Hb as [Hb|[Hb|[Hb|[]]]]; try discriminate Hb; injection Hb as Eb; subst b;
+      first [reflexivity | vm_compute in Hm; discriminate Hm].
+  - repeat split; intros a b Ha Hb Hm; cbn [In] in Ha, Hb;
+      destruct Ha as [Ha|[Ha|[Ha|[]]]]; try discriminate Ha; injection Ha as Ea; subst a;
+      destruct Hb as [Hb|[Hb|[Hb|[]]]]; try discriminate Hb; injection Hb as Eb; subst b;
+      first [reflexivity | vm_compute in Hm; discriminate Hm].
 Qed.
